@@ -69,9 +69,21 @@ def run(rep, tier, seed, replay=None):
     # extreme retry counts on one answered query per family
     base_want = {}
     for fam, d in netprops.FAMILIES.items():
-        if "retries" not in d:
-            continue
-        for v in [x for x in netprops.valid_cases(fam, seed + 18, 12) if not x.notwf][:6]:
+        if "retries" not in d or d.get("nargs", 0) <= d["retries"]:
+            continue  # entries without a retry argument (pure codec suites)
+        cand = [x for x in netprops.valid_cases(fam, seed + 18, 12) if not x.notwf]
+        # an exchange in which some retry loop runs out of attempts lasts (retries + 1) timeouts: with the largest
+        # count that is 2^64 of them, by request, not a panic.  Keep the exchanges whose course does not depend on
+        # the count: same model trace with r and r + 1 retries means no loop was exhausted.
+        probe = []
+        for i, v in enumerate(cand):
+            for j in (0, 1):
+                c = v.case()
+                c.args[d["retries"]] = str(int(c.args[d["retries"]]) + j)
+                probe.append(c.line(f"p{i}_{j}"))
+        pm = vlib.run_model(probe)
+        cand = [v for i, v in enumerate(cand) if pm.get(f"p{i}_0") is not None and pm.get(f"p{i}_0") == pm.get(f"p{i}_1")]
+        for v in cand[:6]:
             for n in (UMAX, UMAX - 1):
                 c = v.case()
                 c.args[d["retries"]] = str(n)
